@@ -167,30 +167,6 @@ pub open spec fn closure_shape(f: Formula, gv: Seq<Variable>, imp: Formula) -> b
     (is_forall(f, gv) && *f->QuantifiedFormula_formula == imp) || (gv.len() == 0 && f == imp)
 }
 
-/// g on the keys bound by gv, s elsewhere
-pub open spec fn overwrite(s: Asg, gv: Seq<Variable>, g: Asg) -> Asg
-    decreases gv.len(),
-{
-    if gv.len() == 0 { s } else { overwrite(s, gv.drop_last(), g).insert(vkey(gv.last()), g[vkey(gv.last())]) }
-}
-
-pub proof fn lemma_overwrite(s: Asg, gv: Seq<Variable>, g: Asg)
-    ensures forall|k: VKey| #[trigger] overwrite(s, gv, g)[k] == (if bound_by(gv, k) { g[k] } else { s[k] }),
-    decreases gv.len(),
-{
-    if gv.len() == 0 {
-        assert forall|k: VKey| !bound_by(gv, k) by {}
-    } else {
-        let pre = gv.drop_last();
-        lemma_overwrite(s, pre, g);
-        assert(gv =~= pre.push(gv.last()));
-        assert forall|k: VKey| #[trigger] overwrite(s, gv, g)[k] == (if bound_by(gv, k) { g[k] } else { s[k] }) by {
-            lemma_bound_by_push(pre, gv.last(), k);
-            assert(overwrite(s, pre, g)[k] == (if bound_by(pre, k) { g[k] } else { s[k] }));
-        }
-    }
-}
-
 pub open spec fn rule_side(r: asp::Rule, gv: Seq<Variable>, vnames: Seq<String>) -> bool {
     &&& distinct_names(vnames)
     &&& vnames.len() == head_args(r.head).len()
